@@ -1,4 +1,5 @@
 import Qv.Model.C16
+import Mathlib.Algebra.Group.Defs
 import Mathlib.Algebra.Order.Field.Basic
 import Mathlib.Data.Matrix.Basic
 import Mathlib.Data.Matrix.Mul
@@ -192,4 +193,120 @@ theorem effGen_norm_decay (H : Matrix n n ℂ) (hH : H.IsHermitian) (cs : List (
   ring
 
 end heff
+section martingaleThm
+variable {T M : Type} [DecidableEq T] [LT T] [DecidableLT T] [CommMonoid M]
+
+/-- what is assumed of the continuous part: segments compose -/
+structure SegLaw (seg : T → T → M) : Prop where
+  refl : ∀ a, seg a a = 1
+  comp : ∀ a b c, seg a b * seg b c = seg a c
+
+/-- the object is started and everything it remembers is relative to the start time `t0` -/
+def Mart.Inv (seg : T → T → M) (t0 : T) (s : Mart T M) : Prop :=
+  (∃ tp, s.tPrev = some tp ∧ s.muPrev = seg t0 tp) ∧ ∀ e ∈ s.table, e.2 = seg t0 e.1
+
+theorem precompute_spec (seg : T → T → M) (hseg : SegLaw seg) (t0 : T) :
+    ∀ (l : List T) (t : T) (mu : M), mu = seg t0 t → ∀ e ∈ precompute seg t mu l, e.2 = seg t0 e.1 := by
+  intro l
+  induction l with
+  | nil => intro t mu _ e he; cases he
+  | cons t1 rest ih =>
+    intro t mu hmu e he
+    simp only [precompute, List.mem_cons] at he
+    have h1 : mu * seg t t1 = seg t0 t1 := by rw [hmu, hseg.comp]
+    rcases he with rfl | he
+    · exact h1
+    · exact ih t1 _ h1 e he
+
+/-- `initialize` (any of its three modes) establishes the invariant; with `cache='keep'` provided the table kept was
+computed from the same start time (which is what `set_state` does during `run`) -/
+theorem initialize_inv (seg : T → T → M) (hseg : SegLaw seg) (s : Mart T M) (t0 : T) (c : Cache T)
+    (hkeep : c = .keep → ∀ e ∈ s.table, e.2 = seg t0 e.1) : (s.initialize seg t0 c).Inv seg t0 := by
+  cases c with
+  | clear => exact ⟨⟨t0, rfl, (hseg.refl t0).symm⟩, by intro e he; cases he⟩
+  | keep => exact ⟨⟨t0, rfl, (hseg.refl t0).symm⟩, hkeep rfl⟩
+  | times l =>
+    exact ⟨⟨t0, rfl, (hseg.refl t0).symm⟩, precompute_spec seg hseg t0 l t0 1 (hseg.refl t0).symm⟩
+
+theorem lookup_spec (seg : T → T → M) (t0 : T) (s : Mart T M) (h : ∀ e ∈ s.table, e.2 = seg t0 e.1) (t : T) (m : M)
+    (hm : s.lookup t = some m) : m = seg t0 t := by
+  unfold Mart.lookup at hm
+  cases hf : s.table.reverse.find? (fun e => e.1 == t) with
+  | none => rw [hf] at hm; cases hm
+  | some e =>
+    rw [hf] at hm
+    simp only [Option.map_some, Option.some.injEq] at hm
+    have hmem : e ∈ s.table := List.mem_reverse.mp (List.mem_of_find?_eq_some hf)
+    have hk : e.1 = t := by simpa using List.find?_some hf
+    rw [← hm, h e hmem, hk]
+
+/-- **one query**: the answer is the product of the jump factors before `t` and of the continuous weight from the
+start time to `t` — whatever was asked before — and the invariant is kept, the jump list untouched -/
+theorem value_spec (seg : T → T → M) (hseg : SegLaw seg) (t0 : T) (s : Mart T M) (hs : s.Inv seg t0) (t : T) :
+    ∃ s', s.value seg t = some (discProd s.disc t * seg t0 t, s') ∧ s'.Inv seg t0 ∧ s'.disc = s.disc := by
+  obtain ⟨⟨tp, htp, hmu⟩, htab⟩ := hs
+  have hmuC : s.contAt seg tp t = seg t0 t := by
+    unfold Mart.contAt
+    cases hl : s.lookup t with
+    | some m => exact lookup_spec seg t0 s htab t m hl
+    | none => simp only []; rw [hmu, hseg.comp]
+  unfold Mart.value
+  rw [htp]
+  simp only [hmuC]
+  exact ⟨_, rfl, ⟨⟨t, rfl, rfl⟩, htab⟩, rfl⟩
+
+theorem addCollapse_spec (seg : T → T → M) (t0 : T) (s : Mart T M) (hs : s.Inv seg t0) (time : T) (factor : M) :
+    ∃ s', s.addCollapse time factor = some s' ∧ s'.Inv seg t0 ∧ s'.disc = s.disc ++ [(time, factor)] := by
+  obtain ⟨⟨tp, htp, hmu⟩, htab⟩ := hs
+  unfold Mart.addCollapse
+  rw [htp]
+  exact ⟨_, rfl, ⟨⟨tp, rfl, hmu⟩, htab⟩, rfl⟩
+
+/-- operations on a started object -/
+inductive MOp (T M : Type)
+  | value (t : T)
+  | collapse (time : T) (factor : M)
+
+/-- run a history; the outputs of the `value` queries, with the jump list in force at each of them -/
+def runHistory (seg : T → T → M) : Mart T M → List (MOp T M) → Option (List (T × List (T × M) × M))
+  | _, [] => some []
+  | s, .value t :: ops =>
+    match s.value seg t with
+    | none => none
+    | some (v, s') => (runHistory seg s' ops).map fun rest => (t, s.disc, v) :: rest
+  | s, .collapse time f :: ops =>
+    match s.addCollapse time f with
+    | none => none
+    | some s' => runHistory seg s' ops
+
+/-- **every history**: after `initialize`, for every sequence of queries (times in any order, repeated, tabulated or
+not) and collapses, every answer is `discProd (collapses so far) t · seg t0 t`: it does not depend on the other
+queries. -/
+theorem history_spec (seg : T → T → M) (hseg : SegLaw seg) (t0 : T) (ops : List (MOp T M)) :
+    ∀ (s : Mart T M), s.Inv seg t0 → ∃ outs, runHistory seg s ops = some outs ∧
+      ∀ o ∈ outs, o.2.2 = discProd o.2.1 o.1 * seg t0 o.1 := by
+  induction ops with
+  | nil => intro s _; exact ⟨[], rfl, by intro o ho; cases ho⟩
+  | cons op ops ih =>
+    intro s hs
+    cases op with
+    | value t =>
+      obtain ⟨s', hv, hinv, _⟩ := value_spec seg hseg t0 s hs t
+      obtain ⟨outs, hr, ho⟩ := ih s' hinv
+      refine ⟨(t, s.disc, discProd s.disc t * seg t0 t) :: outs, ?_, ?_⟩
+      · simp only [runHistory, hv, hr, Option.map_some]
+      · intro o hmem
+        rcases List.mem_cons.mp hmem with rfl | h
+        · rfl
+        · exact ho o h
+    | collapse time f =>
+      obtain ⟨s', ha, hinv, _⟩ := addCollapse_spec seg t0 s hs time f
+      obtain ⟨outs, hr, ho⟩ := ih s' hinv
+      exact ⟨outs, by simp only [runHistory, ha, hr], ho⟩
+
+/-- before `initialize` both operations refuse -/
+theorem not_started_refuses (seg : T → T → M) (t : T) (f : M) :
+    (Mart.fresh : Mart T M).value seg t = none ∧ (Mart.fresh : Mart T M).addCollapse t f = none := ⟨rfl, rfl⟩
+end martingaleThm
+
 end Qv.C16
